@@ -685,8 +685,9 @@ def history_fullstack_run(segments, cfg):
         info['results'] = drive_client(nfc.snep.SnepClient(cl_llc), segments)
         info['logs'] = [list(x.app.log) for x in srvs]
         return info['results']
+    nfr = sum(len(op[1]) + len(rsp) for seg in segments for op, rsp in ([(seg[1], seg[2])] if seg[0] == 'oneshot' else seg[2])) // 100
     try:
-        results = llcpair.with_limit(client)
+        results = llcpair.with_limit(client, link.pipe, 8000 + 60 * nfr)
     finally:
         closed = link.close()
     if link.pipe.stuck or not closed:
@@ -748,10 +749,11 @@ def fullstack_run(kind, ops, cfg, max_acc, answers):
         return results
 
     close_hung = False
+    nfr = (sum(len(o[1]) for o in ops) + sum(len(a[1]) for a in answers if len(a) > 1 and isinstance(a[1], bytes))) // 100
     try:
         try:
-            results = llcpair.with_limit(client)
-        except llcpair.Inconclusive:
+            results = llcpair.with_limit(client, link.pipe, 8000 + 60 * nfr)
+        except (llcpair.Inconclusive, llcpair.Stalled):
             # DataLinkConnection.close() can wait for a DM that the peer's close() has discarded (a race
             # in nfc.llcp.tco, property C09/C05 territory): the C06 observations are complete by then
             if len(info.get('results', ())) != len(ops):
@@ -1188,11 +1190,24 @@ def main():
         return True
 
     # ------------------------------------------------------------ (3) full stack: two real LLCs, no radio
+    fs_bad = [0]
+
+    def fs_enough():
+        """a tree on which the full-stack part already failed several times: the remaining full-stack cases
+        would mostly wait for transfers that never end; what was found is reported, the rest is skipped"""
+        n = fs_bad[0] + sum(1 for v in ck.violations if v[0].startswith(('fullstack', 'concurrent')))
+        if n >= 4:
+            ck.count('fullstack-case-skipped-after-4-failures')
+            return True
+        return False
+
     def fullstack(kind, ops, cfg, max_acc, answers, tag, expect):
         case = {'fullstack': True, 'kind': kind, 'tag': tag, 'cfg': cfg, 'max_acc': max_acc,
                 'ops': [fmt_op(o) for o in ops], 'answers': fmt_answers(answers), 'expect': expect}
         if kind == 'ho' and len(ops) > 1 and any(v[0] == 'ho-server-second-request' for v in ck.violations):
             return                     # already reported; the unrepaired server can deadlock the link here
+        if fs_enough():
+            return
         obs = None
         for attempt in range(2):       # a disagreement must reproduce (real threads, real waits)
             try:
@@ -1207,7 +1222,10 @@ def main():
                     sys.stderr.write('INCONCLUSIVE %s\n' % json.dumps(lst[-1] if lst else {}, default=str))
                 if attempt == 0:
                     continue
+                fs_bad[0] += 1
                 return
+            except llcpair.Stalled as e:
+                obs = {'results': ['!stalled: ' + str(e)], 'log': [], 'send_miu': None, 'recv_miu': None, 'frames': 0}
             except Exception as e:  # noqa
                 obs = {'results': ['!' + type(e).__name__], 'log': [], 'send_miu': None, 'recv_miu': None, 'frames': 0}
             if obs['log'] == expect['log'] and obs['results'] == expect['results']:
@@ -1268,6 +1286,8 @@ def main():
         elogs, eres = history_expect(segments)
         case = {'history': True, 'segments': fmt_segments(segments), 'mius': mius, 'cfg': cfg}
         where = 'fullstack-history' if cfg else 'history'
+        if cfg and fs_enough():
+            return
         obs = None
         for attempt in range(2 if cfg else 1):
             try:
@@ -1275,6 +1295,9 @@ def main():
             except llcpair.Inconclusive:
                 ck.count('fullstack-inconclusive')
                 obs = None
+                continue
+            except llcpair.Stalled as e:
+                obs = {'results': ['!stalled: ' + str(e)], 'logs': [[], []]}
                 continue
             if obs['logs'] == elogs and obs['results'] == eres:
                 break
@@ -1370,6 +1393,8 @@ def main():
                 elogs['t' if j['side'] == 'i' else 'i'].append({'put': 'put:', 'get': 'get:', 'ho': 'ho:'}[o[0]] + H(o[1]))
         elogs = {sd: sorted(v) for sd, v in elogs.items()}
         case = {'concurrent': True, 'tag': tag, 'cfg': cfg, 'jobs': fmt_jobs(jobs)}
+        if fs_enough():
+            return
         obs = None
         t_cc = _t.time()
         for attempt in range(2):       # a disagreement must reproduce (real threads)
